@@ -115,6 +115,12 @@ def exercise(acc, sm, rnd, inp, origin):
             acc.inconc("rewrite-monitor-not-evaluated")
         acc.count("rewrite_checked")
         acc.count("mapping_kind:" + kind)
+        # the rewritten map is stored again (a map that was serialised before being rewritten must not hand out the old text)
+        try:
+            sm2.serialize()
+            acc.count("serialize_after_rewrite_checked")
+        except Exception as e:
+            acc.violation(gsig("serialize-after-rewrite-raised", type(e).__name__), {"message": str(e)[:100]}, dict(inp, map=text, mapping=sorted(mapping.items())))
         for m in monitors.drain("C14"):
             acc.violation(gsig(m["sig"], kind), m["witness"], dict(inp, map=text, mapping=sorted(mapping.items())))
     acc.case(text, n_entries >= 2)
